@@ -122,6 +122,42 @@ Theorem C08_fault_category_hash : forall Vd Vb Vc Vh Vf sc name kvs hv key s,
 Proof. exact now_fault_category_hash. Qed.
 Print Assumptions C08_fault_category_hash.
 
+(* The '#' rule is about characters, not tags: the surplus '#' may stand
+   anywhere -- in the same tag as the first one ("Label/##", "Label/#_#",
+   "Description/# and #"), in another tag or group, next to a reference -- and
+   a value string may also hold no '#' at all. *)
+Theorem C08_fault_value_hash_anywhere : forall Vd Vb Vc Vh Vf sc name kvs pre mid post,
+  let s := pre ++ ch_hash :: mid ++ ch_hash :: post in
+  In (name, JObj kvs) sc -> lookup s_HED kvs = Some (JStr s) ->
+  Vc s = 0 -> (forall ds, Vh ds s = count ch_hash s) ->
+  exists out, validate_sidecar true Vd Vb Vc Vh Vf (JObj sc) = Ok out /\
+              (In c_PLACEHOLDER_INVALID (error_codes out) \/ early_exit true sc out).
+Proof. exact now_fault_value_hash_anywhere. Qed.
+Print Assumptions C08_fault_value_hash_anywhere.
+
+Theorem C08_fault_value_hash_none : forall Vd Vb Vc Vh Vf sc name kvs s,
+  In (name, JObj kvs) sc -> lookup s_HED kvs = Some (JStr s) -> has_hash s = false ->
+  Vc s = 0 -> (forall ds, Vh ds s = count ch_hash s) ->
+  exists out, validate_sidecar true Vd Vb Vc Vh Vf (JObj sc) = Ok out /\
+              (In c_PLACEHOLDER_INVALID (error_codes out) \/ early_exit true sc out).
+Proof. exact now_fault_value_hash_none. Qed.
+Print Assumptions C08_fault_value_hash_none.
+
+Theorem C08_fault_category_hash_anywhere : forall Vd Vb Vc Vh Vf sc name kvs hv key pre post,
+  let s := pre ++ ch_hash :: post in
+  In (name, JObj kvs) sc -> lookup s_HED kvs = Some (JObj hv) -> In (key, JStr s) hv ->
+  Vc s = 0 -> (forall ds, Vh ds s = count ch_hash s) ->
+  exists out, validate_sidecar true Vd Vb Vc Vh Vf (JObj sc) = Ok out /\
+              (In c_PLACEHOLDER_INVALID (error_codes out) \/ early_exit true sc out).
+Proof. exact now_fault_category_hash_anywhere. Qed.
+Print Assumptions C08_fault_category_hash_anywhere.
+
+(* concrete: {"c": {"HED": "Label/##"}} yields exactly PLACEHOLDER_INVALID *)
+Example C08_same_tag_example :
+  exists out, validate_sidecar true V0_defs V0_basic V0_defcount V0_hashes V0_full (JObj sc_hash_same_tag) = Ok out /\
+              error_codes out = [c_PLACEHOLDER_INVALID].
+Proof. exact same_tag_example. Qed.
+
 Theorem C08_early_exit_has_error : forall fixed sc out,
   early_exit fixed sc out -> error_codes out <> [].
 Proof. exact early_exit_has_error. Qed.
